@@ -218,6 +218,18 @@ Proof.
   cbn [andb]. repeat split; lia.
 Qed.
 
+(* up to 2^53 the conversion is exact: nothing is rounded *)
+Lemma fl_of_int_exact x : (Z.abs x <= two53)%Z -> fl_of_int x = mk_fl x 0.
+Proof.
+  intros Hx. unfold fl_of_int, mk_fl_r.
+  destruct (Z.eq_dec (Z.abs x) two53) as [E|E].
+  - assert (Hc : x = two53 \/ x = (- two53)%Z) by lia. destruct Hc as [-> | ->]; reflexivity.
+  - unfold round53. assert (HL : (Z.log2 (Z.abs x) + 1 <= 53)%Z).
+    { destruct (Z.eq_dec x 0) as [->|N0]; [cbn; lia|].
+      assert (Z.log2 (Z.abs x) < 53)%Z by (apply Z.log2_lt_pow2; [lia|change (2 ^ 53)%Z with two53; lia]). lia. }
+    replace (Z.log2 (Z.abs x) + 1 <=? 53)%Z with true by lia. reflexivity.
+Qed.
+
 Lemma fl_of_int_small x : (Z.abs x <= two53)%Z ->
   match fl_of_int x with
   | Some (FZero false) => x = 0%Z
@@ -225,7 +237,7 @@ Lemma fl_of_int_small x : (Z.abs x <= two53)%Z ->
   | _ => False
   end.
 Proof.
-  intros Hx. unfold fl_of_int, mk_fl. destruct x as [|p|p]; [reflexivity| |].
+  intros Hx. rewrite (fl_of_int_exact x Hx). unfold mk_fl. destruct x as [|p|p]; [reflexivity| |].
   - pose proof (strip_accept p 1) as H. destruct (strip2 p 0) as [q k].
     destruct H as (-> & Hk & Hp); [lia|]. repeat split; lia.
   - pose proof (strip_accept p 1) as H. destruct (strip2 p 0) as [q k].
